@@ -40,6 +40,32 @@
 #define VP_MODE 0
 #endif
 
+/* VP_OPS: decimal digits, most significant = first operation; digit 0..4 fixes
+   that operation (VP_OP_*), 9 leaves it symbolic.  Default: all symbolic. */
+#ifndef VP_OPS
+#define VP_OPS 99999
+#endif
+/* VP_OPSET: bit i set = operation i may be chosen (default: all five) */
+#ifndef VP_OPSET
+#define VP_OPSET 31
+#endif
+
+/* keys and seek targets range over 0..VP_KEYMAX (the merger only compares
+   keys, so 2 * entries + 1 values already realise every relative order of
+   the keys and a target; 255 = any byte) */
+#ifndef VP_KEYMAX
+#define VP_KEYMAX 255
+#endif
+/* VP_PERM > 0: the interleaving of the children is CONCRETE for this query:
+   decimal digits, most significant = owner (1-based child number) of the
+   smallest key, ...; keys are then 2,4,6,... by rank and seek targets range
+   over 0..2*total+3 (below, equal to, between, above every key).  The unit
+   only ever compares keys, so one query per interleaving covers every key
+   assignment with that relative order.  VP_PERM == 0: keys symbolic. */
+#ifndef VP_PERM
+#define VP_PERM 0
+#endif
+
 #if VP_N2 >= 0
 #define VP_NC 3
 #define VP_TOTAL (VP_N0 + VP_N1 + VP_N2)
@@ -127,12 +153,39 @@ harness(void) {
   vp_want_status = LDB_OK;
 
   for (c = 0; c < VP_NC; c++) {
-    int st;
-
     vp_arr_init(vp_A[c], VP_ARR_BYTEWISE);
+    vp_A[c]->kcap = 1;
+    vp_A[c]->vcap = 1;
+  }
 
+#if VP_PERM > 0
+  {
+    /* concrete interleaving: rank r (0 = smallest) belongs to child
+       digit(r) - 1 and gets the key 2 * (r + 1) */
+    long perm = VP_PERM;
+    int child_of_rank[16];
+    int r;
+
+    for (r = VP_TOTAL - 1; r >= 0; r--) {
+      child_of_rank[r] = (int)(perm % 10) - 1;
+      perm /= 10;
+    }
+
+    for (r = 0; r < VP_TOTAL; r++) {
+      c = child_of_rank[r];
+      i = vp_A[c]->n;
+      VP_ASSERT(c >= 0 && c < VP_NC && i < vp_cn[c], "harness: VP_PERM matches the child sizes");
+      vp_kb[c][i][0] = (uint8_t)(2 * (r + 1));
+      vp_vb[c][i][0] = (uint8_t)(0x10 * (c + 1) + i);
+      vp_arr_add(vp_A[c], vp_kb[c][i], 1, vp_vb[c][i], 1);
+      vp_ref_add(&vp_ref, vp_kb[c][i], 1, vp_vb[c][i], 1, 1);
+    }
+  }
+#else
+  for (c = 0; c < VP_NC; c++) {
     for (i = 0; i < vp_cn[c]; i++) {
       vp_kb[c][i][0] = vp_u8();
+      VP_ASSUME(vp_kb[c][i][0] <= VP_KEYMAX);
       vp_vb[c][i][0] = (uint8_t)(0x10 * (c + 1) + i);
       vp_arr_add(vp_A[c], vp_kb[c][i], 1, vp_vb[c][i], 1);
       vp_ref_add(&vp_ref, vp_kb[c][i], 1, vp_vb[c][i], 1, 1);
@@ -141,8 +194,12 @@ harness(void) {
     /* each child is sorted, strictly */
     for (i = 0; i + 1 < vp_cn[c]; i++)
       VP_ASSUME(vp_kb[c][i][0] < vp_kb[c][i + 1][0]);
+  }
+#endif
 
-    st = vp_bool() ? LDB_OK : (vp_bool() ? LDB_IOERR : LDB_CORRUPTION);
+  for (c = 0; c < VP_NC; c++) {
+    int st = vp_bool() ? LDB_OK : (vp_bool() ? LDB_IOERR : LDB_CORRUPTION);
+
     vp_A[c]->status = st;
 
     if (vp_want_status == LDB_OK)
@@ -158,16 +215,29 @@ harness(void) {
 #if VP_MODE == 0
   {
     int k, op = 0, prev_op = 0;
+    int vp_fixed_op[8];
+    long ops = VP_OPS;
     uint8_t t[1];
+
+    for (k = VP_K - 1; k >= 0; k--) {
+      vp_fixed_op[k] = (int)(ops % 10);
+      ops /= 10;
+    }
 
     /* keys are unique across the children */
     VP_ASSUME(vp_ref_distinct(&vp_ref));
 
     for (k = 0; k < VP_K; k++) {
       prev_op = op;
-      op = vp_u8();
+      op = vp_fixed_op[k] <= VP_OP_PREV ? vp_fixed_op[k] : vp_u8();
       VP_ASSUME(op <= VP_OP_PREV);
+      VP_ASSUME((VP_OPSET >> op) & 1);
       t[0] = vp_u8();
+#if VP_PERM > 0
+      VP_ASSUME(t[0] <= 2 * VP_TOTAL + 3);
+#else
+      VP_ASSUME(t[0] <= VP_KEYMAX);
+#endif
       vp_apply(op, t);
     }
 
